@@ -26,6 +26,14 @@ class Unsupported(Exception):
     pass
 
 
+class RecursionDetected(Exception):
+    """The same function was re-entered with the same (value-normalised) arguments: unbounded recursion."""
+
+    def __init__(self, cycle):
+        Exception.__init__(self, ' -> '.join(cycle))
+        self.cycle = cycle
+
+
 NULL = ('k', 0, 'null')
 
 
@@ -96,6 +104,8 @@ class Sym:
         self.max_paths = max_paths
         self.depth = 0
         self.trace = []
+        self.recursion_guard = False
+        self.active = []
 
     # ------------------------------------------------------------------ entry
     def run(self, fid, this=None, args=None, state=None):
@@ -121,9 +131,26 @@ class Sym:
         return res
 
     # --------------------------------------------------------------- function bodies
+    def value_key(self, t, st, d=0):
+        if isinstance(t, tuple) and t and t[0] == 'obj' and t[1] in st.heap and d < 5:
+            o = st.heap[t[1]]
+            if o.origin and o.origin[0] in ('ctor', 'aggregate') and not o.tag:
+                return ('val', o.cls, tuple((n, self.value_key(v, st, d + 1)) for n, v in sorted(o.fields.items())))
+            return t
+        if isinstance(t, tuple):
+            return tuple(self.value_key(x, st, d) if isinstance(x, tuple) else x for x in t)
+        return t
+
     def call_body(self, f, this, args, st, captures=None):
         if self.depth >= self.max_depth:
             raise Unsupported(f'inlining depth exceeded at {f["id"]}')
+        key = None
+        if self.recursion_guard:
+            key = (f['id'], self.value_key(this, st), tuple(self.value_key(a, st) for a in args))
+            if key in self.active:
+                i = self.active.index(key)
+                raise RecursionDetected([k[0] for k in self.active[i:]] + [f['id']])
+            self.active.append(key)
         self.depth += 1
         try:
             env = {'__fn__': f['id']}
@@ -166,6 +193,8 @@ class Sym:
             return outs
         finally:
             self.depth -= 1
+            if key is not None:
+                self.active.pop()
 
     def run_ctor_inits(self, f, states):
         for init in f.get('inits', []):
@@ -435,6 +464,14 @@ class Sym:
             return False
         if a[0] == 'obj' and b[0] == 'obj':
             return a[1] == b[1]
+        # an object constructed during this evaluation is distinct from anything that existed before it
+        for x, y in ((a, b), (b, a)):
+            if x[0] == 'obj' and x[1] in st.heap and st.heap[x[1]].origin and st.heap[x[1]].origin[0] in ('emplace', 'tree', 'new') \
+                    and self.preexisting(y):
+                return False
+            if x[0] == 'addr' and x[1][0] == 'obj' and x[1][1] in st.heap and st.heap[x[1][1]].origin \
+                    and st.heap[x[1][1]].origin[0] in ('emplace', 'tree', 'new') and y[0] == 'addr' and self.preexisting(y[1]):
+                return False
         if a[0] == 'addr' and b[0] == 'addr' and a[1][0] == 'obj' and b[1][0] == 'obj':
             return a[1][1] == b[1][1]
         for (cc, val) in st.conds:
@@ -443,6 +480,14 @@ class Sym:
             if cc in (('op', '!=', a, b), ('op', '!=', b, a)):
                 return not val
         return None
+
+    @staticmethod
+    def preexisting(t):
+        """Does the term designate something that existed before the evaluation started (a parameter or a
+        part of one)?"""
+        while isinstance(t, tuple) and t and t[0] in ('fld', 'deref', 'addr'):
+            t = t[1]
+        return isinstance(t, tuple) and bool(t) and t[0] == 'param'
 
     def simp(self, t):
         if not isinstance(t, tuple) or not t:
@@ -558,7 +603,8 @@ class Sym:
                 continue
             if ck in ('DerivedToBase', 'UncheckedDerivedToBase', 'BaseToDerived', 'NoOp', 'LValueToRValue',
                       'ArrayToPointerDecay', 'IntegralCast', 'NullToPointer', 'BitCast', 'Dependent',
-                      'ToVoid', 'IntegralToBoolean', 'PointerToBoolean'):
+                      'ToVoid', 'IntegralToBoolean', 'PointerToBoolean', 'ConstructorConversion',
+                      'UserDefinedConversion', 'FunctionToPointerDecay'):
                 if 'cv' in e and v[0] != 'k':
                     v = ('k', int(e['cv']), 'int')
                 out.append((s, v))
@@ -645,7 +691,17 @@ class Sym:
                         out.append((s2, ('op', op, a, b)))
             return out
         if op in ('+=', '-=', '|=', '&=', '^=', '*=', '/=', '<<=', '>>='):
-            raise Unsupported('compound assignment')
+            out = []
+            bop = op[:-1]
+            for s, vals in self.ev_list([e['l'], e['r']], st):
+                if s.throw is not None:
+                    out.append((s, None))
+                    continue
+                a, b = vals
+                nv = self.arith(bop, a, b)
+                for s2 in self.assign(s, e['l'], nv):
+                    out.append((s2, nv))
+            return out
         if op == ',':
             out = []
             for s, _a in self.ev(e['l'], st):
@@ -678,6 +734,22 @@ class Sym:
                     continue
             out.append((s, ('op', op, a, b)))
         return out
+
+    def arith(self, op, a, b):
+        """a op b with constant folding and flattening of (x + c1) + c2."""
+        if a[0] == 'k' and b[0] == 'k' and isinstance(a[1], int) and isinstance(b[1], int):
+            r = {'+': a[1] + b[1], '-': a[1] - b[1], '*': a[1] * b[1], '|': a[1] | b[1], '&': a[1] & b[1], '^': a[1] ^ b[1]}.get(op)
+            if r is not None:
+                return ('k', r, 'int')
+        if op in ('+', '-') and b[0] == 'k' and isinstance(b[1], int):
+            c = b[1] if op == '+' else -b[1]
+            base = a
+            if a[0] == 'op' and a[1] == '+' and a[3][0] == 'k' and isinstance(a[3][1], int):
+                base, c = a[2], a[3][1] + c
+            if c == 0:
+                return base
+            return ('op', '+', base, ('k', c, 'int'))
+        return ('op', op, a, b)
 
     def ev_cond(self, e, st):
         out = []
